@@ -189,6 +189,32 @@ func (r *c18Run) runTwice(cases []*c18Case) {
 		}
 		changed := canonAny(b1.Any) != want
 		r.c.Ev.Hist("twice_edit_changed_first", fmt.Sprint(changed))
+		// bag-compare of the edited and the untouched bag: nil when the edit changed nothing; a path it
+		// reports leads to nodes that really differ (soundness of the difference it names; that it
+		// finds every difference is not demanded: ojg treats a null member and a missing one alike)
+		co := r.impl.eval("(bag-compare c18-b c18-o)", map[string]slip.Object{"c18-b": b1, "c18-o": b2})
+		if co.Ok {
+			if !changed {
+				r.check(cs, co.Value == nil, c18Diff{sig: sig("compare", cs.Entry, cs.Cell, "differs-for-equal-bags"),
+					observed: slip.ObjectString(co.Value), expected: "nil", from: "impl:compare-vs-trees"})
+			} else if l, isList := co.Value.(slip.List); isList {
+				var cp ppath
+				for _, e := range l {
+					switch te := e.(type) {
+					case slip.String:
+						cp = append(cp, pstep{kind: 'k', key: string(te)})
+					case slip.Fixnum:
+						cp = append(cp, pstep{kind: 'x', idx: int(te)})
+					}
+				}
+				n1, n2 := treeAt(b1.Any, cp), treeAt(b2.Any, cp)
+				r.check(cs, n1 != n2, c18Diff{sig: sig("compare", cs.Entry, cs.Cell, "path-does-not-differ"),
+					observed: fmt.Sprintf("(bag-compare edited untouched) => %s where both hold %s", slip.ObjectString(co.Value), n1), expected: "a path to a difference", from: "impl:compare-vs-trees"})
+				r.c.Ev.Hist("compare_result", "path")
+			} else {
+				r.c.Ev.Hist("compare_result", "nil-for-different-bags")
+			}
+		}
 		// the second bag is untouched
 		r.check(cs, canonAny(b2.Any) == want, c18Diff{sig: sig("parse-twice", cs.Entry, cs.Cell, "second-bag-changed"),
 			observed: fmt.Sprintf("after editing the first bag at %s the second (%s) holds %s", p.show(), second, canonAny(b2.Any)), expected: want, from: "impl:bag=source"})
@@ -258,4 +284,30 @@ func indentJSON(t string) string {
 		}
 	}
 	return sb.String()
+}
+
+// treeAt: the canonical form of the node a definite path selects ("absent" when there is none).
+func treeAt(root any, p ppath) string {
+	cur := root
+	for _, s := range p {
+		switch s.kind {
+		case 'k':
+			m, ok := cur.(map[string]any)
+			if !ok {
+				return "absent"
+			}
+			c, has := m[s.key]
+			if !has {
+				return "absent"
+			}
+			cur = c
+		case 'x':
+			a, ok := cur.([]any)
+			if !ok || s.idx < 0 || s.idx >= len(a) {
+				return "absent"
+			}
+			cur = a[s.idx]
+		}
+	}
+	return canonAny(cur)
 }
